@@ -52,6 +52,8 @@ PID = "C11"
 MODULE = "props.c11_bounded"
 INF = math.inf
 PY = "/verif/.venv/bin/python"
+REPO = os.environ.get("FGGS_REPO", "/repo")      # as vf.core.REPO: the tree under test (a scratch copy when a patch is tried)
+CLI = os.path.join(REPO, "bin", "sum_product.py")
 SOLVER = {"float64": (1e-10, 5000), "float32": (1e-6, 5000), "bool": (0.0, 5000)}
 CMP = {"float64": (1e-7, 1e-9), "float32": (1e-3, 1e-5)}
 LEVELS = ("", "-O", "-OO")
@@ -143,11 +145,11 @@ def _run_cli_inproc(argv: List[str]) -> dict:
     so, se = io.StringIO(), io.StringIO()
     rec: Dict[str, Any] = {"exit": 0, "exc": None}
     old_argv = sys.argv
-    sys.argv = ["/repo/bin/sum_product.py"] + list(argv)
+    sys.argv = [CLI] + list(argv)
     try:
         with contextlib.redirect_stdout(so), contextlib.redirect_stderr(se), warnings.catch_warnings():
             warnings.simplefilter("always")
-            runpy.run_path("/repo/bin/sum_product.py", run_name="__main__")
+            runpy.run_path(CLI, run_name="__main__")
     except SystemExit as e:
         rec["exit"] = e.code if isinstance(e.code, int) else (0 if e.code is None else 1)
     except BaseException as e:  # noqa
@@ -338,7 +340,8 @@ def relational(recipe, results: Dict[str, dict]) -> List[dict]:
 
 def _env():
     env = dict(os.environ)
-    env["PYTHONPATH"] = "/repo:/verif"
+    env["PYTHONPATH"] = f"{REPO}:/verif"
+    env["FGGS_REPO"] = REPO
     env["OMP_NUM_THREADS"] = "1"
     return env
 
@@ -468,8 +471,8 @@ def cli_check(items: List[Tuple[dict, str, bool]], level: str, direct: bool = Fa
             if pre is not None:
                 argvs = cli_files(items[:1], td)
             env = _env()
-            env["PYTHONPATH"] = "/repo"
-            q = subprocess.run([PY] + ([level] if level else []) + ["/repo/bin/sum_product.py"] + argvs[0],
+            env["PYTHONPATH"] = REPO
+            q = subprocess.run([PY] + ([level] if level else []) + [CLI] + argvs[0],
                                capture_output=True, text=True, env=env, timeout=600)
             n += 1
             r0 = outs["results"][0]
